@@ -51,3 +51,26 @@ Qed.
 
 Theorem code_reset_covers : covers code_reset = true.
 Proof. reflexivity. Qed.
+
+(* which fields matter: the time translator (_last_time, _frames) is re-initialised by start_at() at the first line of every
+   document, and nothing looks at it when there is no line - a reset that leaves these two out still isolates every read *)
+Lemma has_cons_other : forall f g fs, fld_code f <> fld_code g -> has (f :: fs) g = has fs g.
+Proof. intros f g fs H. unfold has. cbn [existsb]. destruct (Z.eqb (fld_code f) (fld_code g)) eqn:E; [apply Z.eqb_eq in E; contradiction|reflexivity]. Qed.
+
+Theorem time_translator_reset_redundant : forall fs s offset ls,
+  covers (FTc :: FFrames :: fs) = true -> snd (reader_read fs s offset ls) = read offset ls.
+Proof.
+  intros fs s offset ls H.
+  assert (K : forall g, fld_code g <> 10%Z -> fld_code g <> 11%Z -> has fs g = true).
+  { intros g G1 G2. rewrite <- (has_cons_other FFrames g fs), <- (has_cons_other FTc g (FFrames :: fs)).
+    - apply covers_has. exact H.
+    - cbn. congruence.
+    - cbn. congruence. }
+  unfold reader_read, read, run_lines, reset_fields.
+  rewrite (K FStash), (K FTk), (K FLast), (K FDstart), (K FPop), (K FPaint), (K FRoll), (K FActive), (K FQueue), (K FTime);
+    try (cbn; discriminate).
+  cbn [snd].
+  destruct ls as [|l t].
+  - cbn. reflexivity.
+  - cbn [fold_left]. unfold translate_line at 2 4. cbn [r_err rstate0]. unfold set_clock. cbn. reflexivity.
+Qed.
